@@ -899,7 +899,12 @@ func (e *menv) batch(ctx context.Context, w *rec.Writer, r *rec.Rand, accepted, 
 		case r.Chance(1, 3):
 			deletes = append(deletes, tcase{Obj: "doc:1", Rel: "viewer", User: rec.Pick(r, []string{"a b", "user:a#x#y", "us er:1", ""})})
 		case len(all) > 0:
-			deletes = append(deletes, rec.Pick(r, all))
+			// only complete keys: an object without id or an empty relation is matched as a PATTERN by
+			// the memory backend (C12 finding memory_partial_key_match), which is not this property's subject
+			t := rec.Pick(r, all)
+			if ot, oid := scen.SplitObj(t.Obj); ot != "" && oid != "" && t.Rel != "" {
+				deletes = append(deletes, t)
+			}
 		}
 	}
 	conflict := false
